@@ -13,7 +13,7 @@ ID = 'C10'
 LEVEL = 'exploration'
 RULE = ('Hypothesis arguments (generic / modal-heavy / quantifier-heavy / biased to validity by instantiating standard valid '
         'forms; first-order modal ones included) x logic, then '
-        'metamorphic variants: (a) the conclusion inserted among the premises at a drawn position => must be valid; '
+        'metamorphic variants: (a) the conclusion inserted among the premises at a drawn position (and, in half the cases, a second time) => must be valid; '
         '(b) a drawn extra premise added to an argument found valid => must not become invalid with a limit-free open '
         'branch; (c) injective renamings of sentence letters, constants, user predicates (arity kept) and bound '
         'variables, one kind at a time and all together, with new indexes and subscripts that change the sort order '
@@ -102,6 +102,9 @@ def check_case(case):
     t = case['transforms']
     pos = t['reflex_pos'] % (len(prem) + 1)
     cmp('reflexivity', '', prem[:pos] + [con] + prem[pos:], con, 'reflexive')
+    if t.get('reflex_twice'):
+        # the conclusion among several identical premises
+        cmp('reflexivity', '', prem[:pos] + [con] + prem[pos:] + [con], con, 'reflexive')
     extra = A.from_json(t['extra'])
     epos = t['extra_pos'] % (len(prem) + 1)
     cmp('monotonicity', '', prem[:epos] + [extra] + prem[epos:], con, 'monotone')
@@ -159,7 +162,7 @@ def run_shard(shard, acc):
         case = prover.mk_case(logic, prem, con, group=data.draw(st.booleans()), rank=data.draw(st.booleans()),
                               order=data.draw(st.integers(0, 7)), max_steps=MAX_STEPS)
         case['transforms'] = dict(
-            reflex_pos=data.draw(st.integers(0, 3)),
+            reflex_pos=data.draw(st.integers(0, 3)), reflex_twice=data.draw(st.booleans()),
             extra=A.to_json(data.draw(gen.sentence(prof))), extra_pos=data.draw(st.integers(0, 3)),
             renamings=data.draw(renamings(prem, con)))
         res, info = check_case(case)
